@@ -1201,3 +1201,189 @@ Proof.
       * apply (hosp_lines_gen1 (Z.to_nat (g_n2 a)) 1 (d_second d) (d_ties2 d)); try assumption.
         apply repeat_length.
 Qed.
+
+(* ====================================================================== *)
+(* G. spa                                                                   *)
+(* ====================================================================== *)
+
+Lemma spa_ast_wf : forall a d plec lqs uqs llqs ltgs luqs, gargs_ok a -> draws_contract a d -> g_mp a = 4 ->
+  create_project_lecturers (g_n2 a) (g_n3 a) = Ok plec ->
+  create_quotas (g_n2 a) (g_lq a) = Ok lqs -> create_quotas (g_n2 a) (g_uq a) = Ok uqs ->
+  create_quotas (g_n3 a) (g_llq a) = Ok llqs -> create_quotas (g_n3 a) (g_lt a) = Ok ltgs ->
+  create_quotas (g_n3 a) (g_luq a) = Ok luqs ->
+  wf_ast 3 (g_twopl a) (spa_ast a d lqs uqs plec llqs ltgs luqs) = true /\
+  wf (denote 3 (g_twopl a) (spa_ast a d lqs uqs plec llqs ltgs luqs)) = true.
+Proof.
+  intros a d plec lqs uqs llqs ltgs luqs G C E4 Eplec Elq Euq Ellq Eltg Eluq.
+  pose proof G as (G1 & G2 & G3 & G4 & G5 & G6 & G7 & G8 & G9).
+  specialize (G3 E4). destruct (G8 E4) as (G81 & G82 & G83).
+  assert (NS : n_second a = g_n3 a) by (unfold n_second; now rewrite (proj2 (Z.eqb_eq _ _) E4)).
+  destruct (first_side_facts a d G C) as (ZF & OF & RF & NF & IF).
+  destruct (sec_lists_facts a d (Z.to_nat (g_n3 a)) G C) as (LS & OS & CS & DS); [now rewrite NS|].
+  pose proof (contract_first a d C) as F1.
+  destruct (project_lecturers_spec (g_n2 a) (g_n3 a) plec ltac:(lia) ltac:(lia) Eplec) as (LP & RP & _).
+  assert (Q1 : length lqs = Z.to_nat (g_n2 a)) by (eapply quotas_len; [|eassumption]; lia).
+  assert (Q2 : length uqs = Z.to_nat (g_n2 a)) by (eapply quotas_len; [|eassumption]; lia).
+  assert (Q3 : length llqs = Z.to_nat (g_n3 a)) by (eapply quotas_len; [|eassumption]; lia).
+  assert (Q4 : length ltgs = Z.to_nat (g_n3 a)) by (eapply quotas_len; [|eassumption]; lia).
+  assert (Q5 : length luqs = Z.to_nat (g_n3 a)) by (eapply quotas_len; [|eassumption]; lia).
+  set (A := spa_ast a d lqs uqs plec llqs ltgs luqs).
+  assert (LQ : length (combine (combine llqs ltgs) luqs) = length (sec_lists a d (Z.to_nat (g_n3 a))))
+    by (rewrite !combine_length, LS; lia).
+  assert (SL : forall k, second_list_of 3 A k = nth (Z.to_nat (k - 1)) (sec_lists a d (Z.to_nat (g_n3 a))) []).
+  { intro k. unfold second_list_of. change (3 =? 3) with true. cbv iota.
+    unfold A, spa_ast. cbn [f_third]. rewrite combine_nth by exact LQ. reflexivity. }
+  assert (LO : forall p, lec_of 3 A p = nth (Z.to_nat (p - 1)) plec 0).
+  { intro p. unfold lec_of. change (3 =? 3) with true. cbv iota.
+    unfold A, spa_ast. cbn [f_second]. rewrite combine_nth by (rewrite combine_length; lia). reflexivity. }
+  assert (MS : map snd (f_third A) = sec_lists a d (Z.to_nat (g_n3 a))).
+  { unfold A, spa_ast. cbn [f_third]. apply map_snd_combine. exact LQ. }
+  assert (W : wf_ast 3 (g_twopl a) A = true).
+  { apply wf_ast_intro.
+    - now right.
+    - exact ZF.
+    - unfold zlen, A, spa_ast. cbn [f_second f_n2]. rewrite !combine_length, LP, Q1, Q2. lia.
+    - intros _. unfold zlen, A, spa_ast. cbn [f_third f_n3]. rewrite !combine_length, LS, Q3, Q4, Q5. lia.
+    - discriminate.
+    - unfold A, spa_ast. cbn [f_n1]. lia.
+    - unfold A, spa_ast. cbn [f_n2]. lia.
+    - unfold A, spa_ast. cbn [f_n3]. lia.
+    - rewrite MS. unfold A, spa_ast. cbn [f_first f_second_lists app].
+      apply Forall_app_intro; assumption.
+    - apply Forall_forall. intros l Hl g p Hg Hp. exact (RF l g p Hl Hg Hp).
+    - intros _ q Hq. unfold A, spa_ast in Hq. cbn [f_second] in Hq. destruct q as [xy z].
+      apply in_combine_r in Hq. cbn [snd]. exact (RP z Hq).
+    - intros Tw. apply Tw_intro. intros j l Hin p Hp.
+      destruct (IF j l Hin) as (i & Hi & -> & EC). rewrite EC in Hp.
+      assert (Hi' : (i < length (d_first d))%nat) by (destruct C as (L1 & _); lia).
+      destruct (first_ok_In a _ _ F1 (nth i (d_first d) []) (nth_In _ _ Hi')) as [_ Rg].
+      pose proof (Rg p Hp) as Hr.
+      rewrite LO. set (k := nth (Z.to_nat (p - 1)) plec 0).
+      assert (Hk : 1 <= k <= g_n3 a) by (apply RP, nth_In; lia).
+      rewrite SL, (DS Tw).
+      destruct (contract_second a d G C Tw) as (inv & E & LI & _ & _ & _ & PK & _).
+      unfold second_side_unshuffled in E. rewrite (proj2 (Z.eqb_eq _ _) E4), Eplec in E. cbn [bind] in E.
+      destruct (create_student_lec_lists (d_first d) plec (g_n3 a)) as [sl|] eqn:Esl; [|discriminate].
+      cbn [bind] in E. unfold create_student_lec_lists in Esl.
+      destruct (mapM_nth _ _ _ Esl) as [Lsl Nsl].
+      apply (Permutation_in _ (PK (Z.to_nat (k - 1)) ltac:(rewrite NS; lia))).
+      apply (invert_In sl (g_n3 a)); try assumption; [lia| |lia|].
+      + intros l' Hl'. apply (mapM_In _ _ _ Esl) in Hl' as (x & _ & Hx).
+        exact (proj1 (student_lec_list_spec _ _ _ _ Hx)).
+      + apply (student_lec_list_spec plec (g_n3 a) (nth i (d_first d) [])); [apply Nsl; exact Hi'|].
+        split; [exact Hk|]. exists p. split; [exact Hp|].
+        apply py_nth_ok. unfold zlen. lia. }
+  split; [exact W|].
+  apply denote_wf; try assumption.
+  - intros _. exact G3.
+  - intros [[x y] z] Hq. cbn [fst snd]. unfold A, spa_ast in Hq. cbn [f_second] in Hq.
+    apply in_combine_l in Hq. apply (In_combine_nth _ _ _ _ 0 0) in Hq as (i & Hi & -> & ->); [|congruence].
+    apply (quota_pair (g_n2 a) (g_lq a) (g_uq a)); try assumption; lia.
+  - intros [[[x y] z] l] Hq. cbn [fst snd]. unfold A, spa_ast in Hq. cbn [f_third] in Hq.
+    apply in_combine_l in Hq.
+    apply (In_combine_nth _ _ _ _ (0, 0) 0) in Hq as (i & Hi & Exy & ->); [|rewrite combine_length; lia].
+    rewrite combine_length in Hi. rewrite combine_nth in Exy by congruence. injection Exy as -> ->.
+    split.
+    + apply (quota_pair (g_n3 a) (g_llq a) (g_lt a)); try assumption; lia.
+    + apply (quotas_monotone (g_n3 a) (g_lt a) (g_luq a)); try assumption; lia.
+  - intro k. rewrite SL. apply CS.
+Qed.
+
+Lemma spa_imports : forall a d text, gargs_ok a -> draws_contract a d -> g_mp a = 4 ->
+  spa_instance a d = Ok text ->
+  exists plec lqs uqs llqs ltgs luqs,
+    create_project_lecturers (g_n2 a) (g_n3 a) = Ok plec /\
+    create_quotas (g_n2 a) (g_lq a) = Ok lqs /\ create_quotas (g_n2 a) (g_uq a) = Ok uqs /\
+    create_quotas (g_n3 a) (g_llq a) = Ok llqs /\ create_quotas (g_n3 a) (g_lt a) = Ok ltgs /\
+    create_quotas (g_n3 a) (g_luq a) = Ok luqs /\
+    import_model text 3 (g_twopl a) = Ok (denote 3 (g_twopl a) (spa_ast a d lqs uqs plec llqs ltgs luqs)).
+Proof.
+  intros a d text G C E4 H.
+  pose proof G as (G1 & G2 & G3 & _). specialize (G3 E4).
+  assert (NS : n_second a = g_n3 a) by (unfold n_second; now rewrite (proj2 (Z.eqb_eq _ _) E4)).
+  unfold spa_instance in H.
+  destruct (create_project_lecturers (g_n2 a) (g_n3 a)) as [plec|] eqn:Eplec; [|discriminate]. cbn [bind] in H.
+  destruct (create_quotas (g_n2 a) (g_lq a)) as [lqs|] eqn:Elq; [|discriminate]. cbn [bind] in H.
+  destruct (create_quotas (g_n2 a) (g_uq a)) as [uqs|] eqn:Euq; [|discriminate]. cbn [bind] in H.
+  destruct (create_quotas (g_n3 a) (g_llq a)) as [llqs|] eqn:Ellq; [|discriminate]. cbn [bind] in H.
+  destruct (create_quotas (g_n3 a) (g_lt a)) as [ltgs|] eqn:Eltg; [|discriminate]. cbn [bind] in H.
+  destruct (create_quotas (g_n3 a) (g_luq a)) as [luqs|] eqn:Eluq; [|discriminate]. cbn [bind] in H.
+  destruct (first_lines 1 (d_first d) (d_ties1 d) (Z.to_nat (g_n1 a))) as [fl|] eqn:Efl; [|discriminate].
+  cbn [bind] in H.
+  destruct (proj_lines 1 lqs uqs plec (Z.to_nat (g_n2 a))) as [pl|] eqn:Epl; [|discriminate].
+  cbn [bind] in H. rewrite (two_flag a d G C) in H.
+  destruct (lec_lines 1 (g_twopl a) (d_second d) (d_ties2 d) llqs ltgs luqs (Z.to_nat (g_n3 a))) as [ll|] eqn:Ell;
+    [|discriminate].
+  cbn [bind] in H. injection H as <-.
+  exists plec, lqs, uqs, llqs, ltgs, luqs. repeat (split; [reflexivity|]).
+  destruct (spa_ast_wf a d plec lqs uqs llqs ltgs luqs G C E4 Eplec Elq Euq Ellq Eltg Eluq) as [W _].
+  destruct (project_lecturers_spec (g_n2 a) (g_n3 a) plec ltac:(lia) ltac:(lia) Eplec) as (LP & _).
+  assert (Q1 : length lqs = Z.to_nat (g_n2 a)) by (eapply quotas_len; [|eassumption]; lia).
+  assert (Q2 : length uqs = Z.to_nat (g_n2 a)) by (eapply quotas_len; [|eassumption]; lia).
+  assert (Q3 : length llqs = Z.to_nat (g_n3 a)) by (eapply quotas_len; [|eassumption]; lia).
+  assert (Q4 : length ltgs = Z.to_nat (g_n3 a)) by (eapply quotas_len; [|eassumption]; lia).
+  assert (Q5 : length luqs = Z.to_nat (g_n3 a)) by (eapply quotas_len; [|eassumption]; lia).
+  pose proof C as (L1 & L2 & _).
+  match goal with |- import_model ?t _ _ = _ =>
+    replace t
+    with (join SP [str_of_Z (g_n1 a); str_of_Z (g_n2 a); str_of_Z (g_n3 a)] +++ NLs +++
+          (fl +++ pl +++ ll) +++ (NLs +++ info_spa a))
+    by (cbn [join]; unfold sZ; rewrite !append_assoc; reflexivity) end.
+  apply (text_import 3 (g_twopl a) (spa_ast a d lqs uqs plec llqs ltgs luqs) _
+           (numbered student_toks 1 (zipruns (d_first d) (d_ties1 d)) ++
+            numbered project_toks 1 (combine (combine lqs uqs) plec) ++
+            numbered lecturer_toks 1 (combine (combine (combine llqs ltgs) luqs)
+                                              (sec_lists a d (Z.to_nat (g_n3 a)))))).
+  - exact W.
+  - reflexivity.
+  - apply gen_ok_app; [|apply gen_ok_app].
+    + now apply (first_lines_gen (Z.to_nat (g_n1 a))).
+    + now apply (proj_lines_gen (Z.to_nat (g_n2 a))).
+    + unfold sec_lists. destruct (g_twopl a) eqn:Tw.
+      * destruct (contract_second a d G C Tw) as (inv & _ & _ & S1 & S2 & _). rewrite NS in S1, S2.
+        now apply (lec_lines_gen2 (Z.to_nat (g_n3 a))).
+      * now apply (lec_lines_gen1 (Z.to_nat (g_n3 a)) 1 (d_second d) (d_ties2 d)).
+Qed.
+
+(* ====================================================================== *)
+(* main theorem                                                            *)
+(* ====================================================================== *)
+
+Theorem generated_file_imports : forall a d text,
+  gargs_ok a -> draws_contract a d -> instance_text a d = Ok text ->
+  exists M, import_model text (na_of a) (g_twopl a) = Ok M /\ wf M = true /\
+            nS M = g_n1 a /\ nP M = g_n2 a /\ (g_twopl a = true -> two_sided M = true) /\
+            (g_twopl a = false -> one_sided M = true).
+Proof.
+  intros a d text G C H. unfold instance_text in H. unfold na_of.
+  destruct (Z.eqb_spec (g_mp a) 4) as [E4|N4].
+  - destruct (spa_imports a d text G C E4 H) as
+      (plec & lqs & uqs & llqs & ltgs & luqs & Eplec & Elq & Euq & Ellq & Eltg & Eluq & HI).
+    destruct (spa_ast_wf a d plec lqs uqs llqs ltgs luqs G C E4 Eplec Elq Euq Ellq Eltg Eluq) as [W WF].
+    eexists. split; [exact HI|]. split; [exact WF|].
+    split; [apply denote_nS|]. split; [apply denote_nP|]. apply denote_sided. exact W.
+  - destruct (hr_imports a d text G C N4 H) as (lqs & uqs & Elq & Euq & HI).
+    destruct (hr_ast_wf a d lqs uqs G C N4 Elq Euq) as [W WF].
+    eexists. split; [exact HI|]. split; [exact WF|].
+    split; [apply denote_nS|]. split; [apply denote_nP|]. apply denote_sided. exact W.
+Qed.
+
+
+(* concrete sanity checks of the statement: hr two-sided with a tie, spa two-sided, ha one-sided *)
+Example ex_hr : let a := mkGargs 3 1 true 2 2 0 1 2 "0.5" "0.5" "0.0" 0 2 0 0 "" 0 in
+  let d := mkDraws [[1;2];[2]] [[true;false];[false]] [[1];[2;1]] [[false];[true;true]] in
+  (do t <- instance_text a d; do M <- import_model t (na_of a) true; Ok (wf M && two_sided M)) = Ok true.
+Proof. vm_compute. reflexivity. Qed.
+Example ex_spa : let a := mkGargs 4 1 true 2 3 2 1 2 "0.5" "0.5" "0.0" 0 3 0 2 "2.0" 3 in
+  let d := mkDraws [[3;1];[2]] [[true;false];[false]] [[2;1];[1]] [[true;true];[false]] in
+  (do t <- instance_text a d; do M <- import_model t (na_of a) true; Ok (wf M && two_sided M)) = Ok true.
+Proof. vm_compute. reflexivity. Qed.
+Example ex_ha : let a := mkGargs 1 1 false 2 2 0 1 2 "0.5" "0.5" "0.0" 0 2 0 0 "" 0 in
+  let d := mkDraws [[1;2];[2]] [[true;false];[false]] [] [] in
+  (do t <- instance_text a d; do M <- import_model t (na_of a) false; Ok (wf M && one_sided M)) = Ok true.
+Proof. vm_compute. reflexivity. Qed.
+
+Print Assumptions generated_file_exists.
+Print Assumptions generated_file_imports.
+Print Assumptions denote_wf.
+Print Assumptions text_import.
